@@ -203,9 +203,10 @@ func c23(c *engine.Ctx) {
 		if dec != nil {
 			resD = engine.Describe(engine.Args(dec.Common())[0])
 		}
-		for _, call := range engine.CallsTo(hr, false, "(*rpc.Engine).NotifyResult", "(*rpc.Engine).NotifyError") {
+		for _, ns := range notifySites(hr) {
+			call := ns.call
 			n2++
-			id := engine.Describe(engine.Args(call.Common())[1])
+			id := engine.Describe(ns.id)
 			c.Check(dec != nil && id == resD+".RequestMessageID", "C23.R2", "handleResult/"+call.Common().StaticCallee().Name()+"/routes-by-req-msg-id", call.Pos(), "the result must be routed to RequestMessageID of the decoded rpc_result (routes to %s)", id)
 		}
 		// id/buffer agreement after gzip
